@@ -8,6 +8,7 @@
  race : the same histories under real concurrency + jitter with the cancel issued by a second goroutine, under the race
         detector; goroutine leak check after Close
  Judge: PbfPipeline!RunOK clauses "stop", "err", "readahead", "outcome"."""
+import json
 import random
 import vlib
 from props import pbfcommon as P
@@ -71,6 +72,7 @@ def run(ctx):
     P.confirm(ctx, jit, jrecs, jbad, PREF, lambda cs: P.run_pipe(ctx, cs, race=True, shards=1))
     ctx.extra["race_detector_runs"] = len(jit)
     ctx.tick("race_runs")
+    witnesses(ctx)
     xml_half(ctx)
     ctx.rule = ("evaluations = runs of the real scanner with a stop (Close / cancel by the scanning goroutine / cancel by another goroutine) "
                 "at a scripted or random point; distinct = distinct (configuration, script, realised schedule); non-trivial = the history contains a stop")
@@ -78,6 +80,26 @@ def run(ctx):
                        "'without consuming the rest of the input' is judged as: fewer blocks read after the stop than were left (when >= 3 were left); "
                        "the Model's stronger bound (<= 1 read) is checked on the Model and through trace validation",
                        "jitter-mode race runs are judged by RunOK as well; a race report by the Go race detector is outcome 'race'"]
+
+
+def witnesses(ctx):
+    """Deviation witnesses (spec/PbfWitness.tla): violating behaviours of the Model *with* a deviation, driven through the real
+    goroutines.  On a tree that follows the intended design the same schedule ends with Err() = canceled (RunOK holds)."""
+    q = ctx.quick()
+    wit = vlib.tlc_gen(ctx, "PbfWitness", "PbfWitness.cfg", workers=4, count_states=True)
+    wit.sort(key=lambda c: (len(c["wit"]), json.dumps(c, sort_keys=True)))
+    if q:
+        wit = wit[:40] + wit[40::max(1, len(wit) // 40)][:40]
+    for c in wit:
+        c["script"], c["attempts"] = ["scanall", "err"], 60
+    recs = P.run_pipe(ctx, wit, shards=8)
+    for c in wit:
+        ctx.note_case(["witness", c["cfg"], c["wit"]], nontrivial=True)
+    ctx.extra["witnesses"] = len(wit)
+    ctx.extra["witnesses_followed_to_the_end"] = sum(1 for r in recs if r.get("followed"))
+    bad = P.judge_runs(ctx, recs, PREF)
+    P.confirm(ctx, wit, recs, bad, PREF, lambda cs: P.run_pipe(ctx, cs, shards=1))
+    ctx.tick("witnesses")
 
 
 XML_CLAUSES = {"later-scans-false", "err-precedence", "false-without-reason"}
